@@ -63,6 +63,40 @@ def runTrace (s0 : State) (sched : List Nat) : String := Id.run do
   out := out.push ("END " ++ status ++ " F " ++ finalLine s)
   return " ".intercalate out.toList
 
+/-- replay with injected copy failures: `fails[t]` = the attempt numbers (critical-section bodies executed by
+thread `t`, counted from 0) whose `operator=` throws; a failing body is the model's `fail` step -/
+def runTraceFail (s0 : State) (sched : List Nat) (fails : List (List Nat)) : String := Id.run do
+  let mut s := s0
+  let mut att : Array Nat := Array.replicate s0.threads.length 0
+  let mut out : Array String := #["I/" ++ joinNats (enabledSet s)]
+  let doStep := fun (s : State) (att : Array Nat) (t : Nat) =>
+    let atBody := match s.threads[t]? with
+      | some th => th.pc == .body
+      | none => false
+    let a := att.getD t 0
+    let failing := atBody && ((fails.getD t []).contains a)
+    let att' := if atBody then att.setIfInBounds t (a + 1) else att
+    let r := if failing then fail s t (s.ring s.produceAt) else step s t
+    (r, att')
+  for t in sched do
+    let (r, att') := doStep s att t
+    match r with
+    | some s' => out := out.push (stepTok s s' t); s := s'; att := att'
+    | none => out := out.push ("x" ++ toString t)
+  let mut fuel := 20 * (measure s + 1) + 100
+  while fuel > 0 do
+    fuel := fuel - 1
+    match enabledSet s with
+    | [] => fuel := 0
+    | t :: _ =>
+      let (r, att') := doStep s att t
+      match r with
+      | some s' => out := out.push (stepTok s s' t); s := s'; att := att'
+      | none => fuel := 0
+  let status := if allDone s then "ok" else "deadlock"
+  out := out.push ("END " ++ status ++ " F " ++ finalLine s)
+  return " ".intercalate out.toList
+
 /-- replay a schedule (no fallback), then name the thread the harness should probe: a thread that is not
 finished and cannot step must stay blocked when released -/
 def runProbe (s0 : State) (sched : List Nat) (probe : String) : String := Id.run do
@@ -217,6 +251,10 @@ def handle (line : String) : IO Unit := do
   | ["pcq", cap, prods, quotas, sched, probe] =>
     match parseInit cap prods quotas with
     | some s0 => IO.println (runProbe s0 (parseNats sched) probe)
+    | none => IO.println "bad-op"
+  | ["pcqf", cap, prods, quotas, fails, sched] =>
+    match parseInit cap prods quotas with
+    | some s0 => IO.println (runTraceFail s0 (parseNats sched) ((parseList fails ";").map parseNats))
     | none => IO.println "bad-op"
   | ["enum", cap, prods, quotas, limit, mode] =>
     match parseInit cap prods quotas, limit.toNat? with
